@@ -134,8 +134,13 @@ def main(argv):
                             {"bucket": nf.bucket, "msg": "regression of fixed defect (%s): %s"
                              % (fx.get("text", ""), nf.msg), "spec": spec, "data": enc(nf.data)}
                         )
-        if hasattr(mod, "corpus"):
-            for spec in mod.corpus():
+        # saved inputs that once made the check alarm wrongly (known/corpus-<ID>-*.json): they must stay quiet
+        import glob as _glob
+        corpus = list(mod.corpus()) if hasattr(mod, "corpus") else []
+        for path in sorted(_glob.glob(os.path.join(HERE, "known", "corpus-%s-*.json" % prop_id))):
+            corpus.extend(load_specs(path))
+        if corpus:
+            for spec in corpus:
                 out = run_spec(mod, spec)
                 for nf in rep.observe(spec, out):
                     violations.append(
